@@ -54,15 +54,18 @@ def run(ctx):
     ctx.assumptions += [
         "page-cache content survives SIGKILL of the writer (no power loss); durability (fsync) is not part of the property",
         "umask arithmetic of the kernel: new file mode = requested mode &^ umask (observed on every run, not proved)",
+        "a write(2) to the regular temporary file either transfers the whole chunk or fails (no short writes); no other "
+        "process touches the temporary name; name validation in CreateWithMode (ErrInvalid for a trailing separator) "
+        "and the O_EXCL retry loop of CreateTemp are outside the model",
     ]
     ctx.lean(props=["Props.C14"], drivers=["drv_c14"])
     if not ctx.harness("./cmd/c14"):
         return
     thm = ("C14.dest_old_or_new_at_every_prefix / failure_leaves_dst / failure_removes_tmp / commit_result / "
            "close_commit_idempotent are about Safe.writeFile and Safe.File.*; implementation != model on this input")
-    ctx.diff(area="api", driver="drv_c14", n={"quick": 8000, "thorough": 300000}, stateful=True, theorem=thm,
+    ctx.diff(area="api", driver="drv_c14", n={"quick": 6000, "thorough": 300000}, stateful=True, theorem=thm,
              what="in-process history of safe.File; output = result code, destination state, temporary file state")
-    ctx.diff(area="wf", driver="drv_c14", n={"quick": 480, "thorough": 14000}, theorem=thm,
+    ctx.diff(area="wf", driver="drv_c14", n={"quick": 320, "thorough": 14000}, theorem=thm,
              what="in-process WriteFileWithMode; mid = temporary file size seen from the callback (bufio flush points)")
     # ---- strace streams
     probe = "unavailable: strace not found"
@@ -85,8 +88,8 @@ def run(ctx):
             "clean_and_fault_runs": ctx.kinds.get("trace:trace", 0),
             "kill_runs": ctx.kinds.get("trace:kill", 0),
             "what": "fixed enumeration (no sampling): clean trace for sizes {0,1,B-1,B,B+1,200000} x {absent, existing} x "
-                    "piece patterns; for the %s scenarios: every write(2) index, close, rename failing with "
-                    "ENOSPC/EIO/EACCES, callback failures, and SIGKILL on entry to every open/write/close/rename/unlink "
+                    "piece patterns; for the %s scenarios: every write(2) index, close, rename failing (thorough: each with "
+                    "ENOSPC, EIO and EACCES; quick: one of the three in rotation), callback failures, and SIGKILL on entry to every open/write/close/rename/unlink "
                     "(index 1..count+1) of the clean run and of cleanup paths" % (
                         "full set of" if ctx.tier == "thorough" else "quick subset of"),
         }
